@@ -612,6 +612,9 @@ func (cr *checkRun) report() int {
 		}
 	}
 	level := "proof"
+	if cr.scanOnly {
+		level = "other" // decided by inspection obligations over the SSA, not by SMT (C19; MANIFEST category "other")
+	}
 	cov := map[string]interface{}{
 		"obligations":            len(all),
 		"discharged":             discharged,
